@@ -42,8 +42,24 @@ pub fn s1(ctx: &Ctx) {
 
 /// S2: all programs of depth <= 3 (quick) / 4 (thorough) over the standard alphabet
 pub fn s2(ctx: &Ctx) {
-    let depth = if ctx.tier_thorough { 4 } else { 3 };
-    let p = pick_program(ctx, depth);
+    let p = pick_program(ctx, if ctx.tier_thorough { 4 } else { 3 });
+    if let Some((_, rb)) = roundtrip(ctx, &p, P) {
+        count_section_residues(ctx, &rb);
+        if rb.scene.clouds.iter().any(|c| !c.points.is_empty()) {
+            ctx.nontrivial();
+        }
+    }
+}
+
+/// S2-deep: all programs of depth exactly 4 (quick) / 5 (thorough) over a 12-op sub-alphabet
+/// (4 blob sizes, 2 images, 6 clouds) of the standard alphabet
+pub fn s2deep(ctx: &Ctx) {
+    const SUB: [usize; 12] = [0, 1, 2, 3, 4, 5, 6, 7, 9, 14, 19, 27];
+    let mut ops = Vec::new();
+    for pos in 0..if ctx.tier_thorough { 5 } else { 4 } {
+        ops.push(std_op(SUB[ctx.pick("prog-op", SUB.len())], pos));
+    }
+    let p = Program { guid: "file-guid".into(), ops, xml_mode: 0, no_finalize: false };
     if let Some((_, rb)) = roundtrip(ctx, &p, P) {
         count_section_residues(ctx, &rb);
         if rb.scene.clouds.iter().any(|c| !c.points.is_empty()) {
